@@ -429,14 +429,16 @@ Definition header_table : list (string * string * Z) :=
 Definition header_bbox_num : Z := 1.
 
 (* ---------- found-flag rules (if !foundX { dec.X = nil } / return error; if foundA && foundB { use }) ---------- *)
-(* flags and iterators are named by the dispatch arm (message variable, field number) that sets / fills them *)
+(* flags and iterators are named by the dispatch arm (message variable, field number) that sets / fills them;
+   the translator emits the rules sorted by (scope, number) of their flag, the niled iterators sorted too *)
 Definition dense_rules : list frule :=
   [ mkFR "nil" [("info", 1)] [("info", 1)] []; mkFR "nil" [("info", 2)] [("info", 2)] [];
     mkFR "nil" [("info", 3)] [("info", 3)] []; mkFR "nil" [("info", 4)] [("info", 4)] [];
     mkFR "nil" [("info", 5)] [("info", 5)] []; mkFR "nil" [("info", 6)] [("info", 6)] [];
-    mkFR "error" [("msg", 1)] [] []; mkFR "error" [("msg", 8)] [] []; mkFR "error" [("msg", 9)] [] [];
-    mkFR "nil" [("msg", 10)] [("msg", 10)] [];
-    mkFR "nil" [("msg", 5)] [("info", 1); ("info", 2); ("info", 3); ("info", 4); ("info", 5); ("info", 6)] [] ].
+    mkFR "error" [("msg", 1)] [] [];
+    mkFR "nil" [("msg", 5)] [("info", 1); ("info", 2); ("info", 3); ("info", 4); ("info", 5); ("info", 6)] [];
+    mkFR "error" [("msg", 8)] [] []; mkFR "error" [("msg", 9)] [] [];
+    mkFR "nil" [("msg", 10)] [("msg", 10)] [] ].
 Definition way_rules : list frule := [ mkFR "use" [("msg", 2); ("msg", 3)] [] ["set:Way.Tags"] ].
 Definition rel_rules : list frule :=
   [ mkFR "use" [("msg", 2); ("msg", 3)] [] ["set:Relation.Tags"];
